@@ -25,6 +25,7 @@ CONSTANTS
   Changes = {}
   Presents = {}
   Memory = FALSE
+  SharedVerdict = FALSE
 INIT Init
 NEXT Next
 INVARIANTS AuthHolds VpcHolds ScopeHolds ResumeHolds ResumeScopeHolds Conforms RevocationEffective
